@@ -163,11 +163,11 @@ structure KeyE where
   obj : ObjE
   deriving Repr, Inhabited
 
+def idleBytes (k : KeyE) : Bytes := match k.idle with | none => [] | some (f, n) => 0xF8 :: encLen f n
+def freqBytes (k : KeyE) : Bytes := match k.freq with | none => [] | some n => [0xF9, UInt8.ofNat n]
+
 def KeyE.enc (k : KeyE) : Bytes :=
-  k.exp.enc ++
-  (match k.idle with | none => [] | some (f, n) => 0xF8 :: encLen f n) ++
-  (match k.freq with | none => [] | some n => [0xF9, UInt8.ofNat n]) ++
-  [k.obj.rtype] ++ k.key.enc ++ k.obj.ser
+  k.exp.enc ++ idleBytes k ++ freqBytes k ++ [k.obj.rtype] ++ k.key.enc ++ k.obj.ser
 
 inductive Item where
   | aux (k v : SE)
